@@ -277,6 +277,9 @@ def history_case(ctx, LP, rng, nops):
     ctx.case(["hist", regs_spec, ops], True, {"history": ops[:8], "registers": regs_spec, "model": mo[:100]})
     replay = {"op": "history", "registers": [{"coefs": c, "dmin": dm} for c, dm in regs_spec], "ops": ops,
               "python_status": status, "python_failed_at": fail_at, "model": mo[:800]}
+    if mo.startswith("outside@"):
+        ctx.count("history-outside-domain")       # window of the wrong parity / parity carried by an unflagged zero: left open
+        return
     if mo.startswith("err:"):
         at = int(mo.split("@")[1])
         if status != "assert" or fail_at != at:
